@@ -52,6 +52,18 @@ func programStats(p *Program) (kinds map[string]int, labels []string) {
 	if incl {
 		labels = append(labels, "include-qualified-type")
 	}
+	for _, f := range p.Files {
+		for _, d := range f.Decls {
+			for i := 1; i < len(d.EnumValues); i++ {
+				if d.EnumValues[i].Explicit && d.EnumValues[i].Value < d.EnumValues[i-1].Value {
+					labels = append(labels, "enum-explicit-value-decreases")
+					if i+1 < len(d.EnumValues) && !d.EnumValues[i+1].Explicit {
+						labels = append(labels, "enum-implicit-after-decrease")
+					}
+				}
+			}
+		}
+	}
 	sort.Strings(labels)
 	return
 }
@@ -163,7 +175,7 @@ func allTexts(texts map[string]string) string {
 	return b.String()
 }
 
-var c10Cfg = DefaultCfg()
+var c10Cfg = func() *Cfg { c := DefaultCfg(); c.QuoteStrings = true; return c }()
 
 var c10Prop = ev.Prop("c10.roundtrip", genProgCase(c10Cfg), checkC10, classifyC10, sampleProg)
 
